@@ -18,6 +18,7 @@ from checks import c09_dense as dense
 LEVEL = "model_checking"
 PID = "C09"
 DEN = 4
+GSM_KINDS = ("fixed", "dyn", "plain")
 
 
 # ---------------------------------------------------------------------------------------------
@@ -26,7 +27,8 @@ def tla_set(items):
     return "{" + ",\n  ".join(items) + "}"
 
 
-def write_structured(workdir, name, part, *, instances=(), grid_sizes=(), order="lex", skikron="reversed", maxn=3, maxt=3, maxq=2, invariants=None):
+def write_structured(workdir, name, part, *, instances=(), grid_sizes=(), order="lex", skikron="reversed", maxn=3, maxt=3, maxq=2, invariants=None,
+                     gsm_kind="fixed", gsm_depth=0, gsm_clear="always", gsm_wide=False):
     os.makedirs(workdir, exist_ok=True)
     mod = "MC_Structured_" + name
     with open(os.path.join(workdir, mod + ".tla"), "w") as f:
@@ -34,9 +36,9 @@ def write_structured(workdir, name, part, *, instances=(), grid_sizes=(), order=
             mod, tla_set([tla(i) for i in instances]), tla_set([tla(list(s)) for s in grid_sizes])))
     cfg = os.path.join(workdir, mod + ".cfg")
     inv = invariants or {"kron": ["KronOK"], "index": ["IndexOK"], "grid": ["GridOK"], "ski": ["SKIKuuOK", "SKIReversalOK", "SKIOrderOK"],
-                         "sgpr": ["SgprOK"], "rff": ["RffOK"], "wiski": ["WiskiOK"]}[part]
+                         "sgpr": ["SgprOK"], "rff": ["RffOK"], "wiski": ["WiskiOK"], "gridsm": ["GsmOK"]}[part]
     tlc.write_cfg(cfg, spec="Spec", constants={"Part": part, "Instances": "<- InstDef", "GridSizes": "<- GridDef", "Order": order, "SkiKron": skikron,
-                                                "MaxN": maxn, "MaxT": maxt, "MaxQ": maxq}, invariants=inv)
+                                                "MaxN": maxn, "MaxT": maxt, "MaxQ": maxq, "GsmKind": gsm_kind, "GsmDepth": gsm_depth, "GsmClear": gsm_clear, "GsmWide": gsm_wide}, invariants=inv)
     return os.path.join(workdir, mod + ".tla"), cfg
 
 
@@ -56,7 +58,12 @@ def frac(v):
 
 # ---------------------------------------------------------------------------------------------
 # instance generators for the rational parts
+NOISE_KINDS = ("homo", "fixed", "fixedadd", "hetero")
+
+
 def gen_sgpr(rnd, count):
+    """every base instance under both settings of the diagonal correction and every noise model of Structured.tla (NoiseKinds); the per-point
+    variances nv are never all equal"""
     out, seen = [], set()
     while len(out) < count:
         m = rnd.choice([1, 1, 2])
@@ -64,12 +71,15 @@ def gen_sgpr(rnd, count):
         L = [[(rnd.randint(1, 2) if i == j else (rnd.randint(-1, 1) if j < i else 0)) for j in range(m)] for i in range(m)]
         X = [[rnd.randint(-2, 2) for _ in range(m + 1)] for _ in range(n)]
         Xs = [[rnd.randint(-2, 2) for _ in range(m + 1)] for _ in range(ns)]
-        base = dict(L=L, X=X, Xs=Xs, y=[rnd.randint(-2, 2) for _ in range(n)], s2=rnd.choice([1, 2]), mc=rnd.randint(-1, 1))
-        if repr(base) in seen or len(set(map(tuple, X))) < n or any(tuple(x) in set(map(tuple, X)) for x in Xs):
+        nv = [rnd.randint(1, 3) for _ in range(n)]
+        base = dict(L=L, X=X, Xs=Xs, y=[rnd.randint(-2, 2) for _ in range(n)], s2=rnd.choice([1, 2]), mc=rnd.randint(-1, 1), nv=nv)
+        key = repr((L, X, Xs, base["y"]))
+        if key in seen or len(set(map(tuple, X))) < n or any(tuple(x) in set(map(tuple, X)) for x in Xs) or len(set(nv)) < 2:
             continue
-        seen.add(repr(base))
-        for corr in (False, True):
-            out.append(dict(base, corr=corr))
+        seen.add(key)
+        for nk in NOISE_KINDS:
+            for corr in (False, True):
+                out.append(dict(base, corr=corr, nk=nk))
     return out[:count]
 
 
@@ -401,32 +411,39 @@ def _l1_sgpr(torch, gpytorch, c):
     D = torch.float64
     inst, exp = c["c"], c["out"]
     corr = bool(inst["corr"])
-    res = _cell(c, "C09/exact/sgpr/%s" % ("corr" if corr else "nocorr"))
-    m = len(inst["L"])
+    nk = inst["nk"]
+    res = _cell(c, "C09/exact/sgpr/%s/%s" % (nk, "corr" if corr else "nocorr"))
     X = torch.tensor(inst["X"], dtype=D)
     Xs = torch.tensor(inst["Xs"], dtype=D)
     y = torch.tensor(inst["y"], dtype=D)
+    nv = torch.tensor(inst["nv"], dtype=D)
     Z = torch.tensor([row + [0] for row in inst["L"]], dtype=D)
-    desc = "L=%s X=%s Xs=%s y=%s noise=%d mean=%d correction=%s" % (inst["L"], inst["X"], inst["Xs"], inst["y"], inst["s2"], inst["mc"], corr)
-    lik = gpytorch.likelihoods.GaussianLikelihood().to(D)
+    desc = "L=%s X=%s Xs=%s y=%s noise model=%s s2=%d nv=%s mean=%d correction=%s" % (inst["L"], inst["X"], inst["Xs"], inst["y"], nk, inst["s2"], inst["nv"], inst["mc"], corr)
+    lik, needs = dense.make_lik(torch, gpytorch, nk, inst["s2"], nv, dense.table_noise_model(torch, gpytorch, X, nv) if nk == "hetero" else None)
     lin = gpytorch.kernels.LinearKernel().to(D)
     with torch.no_grad():
         lin.variance = torch.tensor(1.0, dtype=D)
     kern = gpytorch.kernels.InducingPointKernel(lin, inducing_points=Z, likelihood=lik).to(D)
-    model, lik = dense.make_gp(torch, gpytorch, X, y, kern, inst["s2"], inst["mc"], lik)
-    if abs(float(lik.noise) - inst["s2"]) > 1e-12 or abs(float(lin.variance) - 1.0) > 1e-12:
-        raise core.Machinery("could not set integer hyperparameters exactly")
+    model = dense.make_gp_with(torch, gpytorch, X, y, kern, lik, inst["mc"])
+    # binding of the noise model: the diagonal the likelihood adds at the training inputs is the spec's NoiseVec
+    wn = torch.tensor([float(frac(v)) for v in exp["nz"]], dtype=D)
+    ok, gn = core.guarded(lambda: dense.lik_noise_vector(torch, lik, X, needs))
+    if not ok:
+        return dense.fail(res, res["sig"] + "/noise-raises", "%s: %s" % (desc, gn))
+    if gn.shape != wn.shape or float((gn - wn).abs().max()) > 1e-12 or abs(float(lin.variance) - 1.0) > 1e-12:
+        raise core.Machinery("could not set the integer hyperparameters exactly: noise %s, spec %s" % (gn.tolist(), wn.tolist()))
     wm = torch.tensor([float(frac(v)) for v in exp["mean"]], dtype=D)
     wc = torch.tensor([[float(frac(v)) for v in row] for row in exp["cov"]], dtype=D)
     n = len(inst["y"])
+    params = (X,) if needs else ()
     if not corr:
-        # training objective * N against the collapsed bound assembled from TLC's exact pieces
-        bound = -0.5 * (float(frac(exp["quad"])) + math.log(float(frac(exp["det"]))) + n * math.log(2 * math.pi)) - float(frac(exp["tr"])) / (2 * inst["s2"])
-        ok, got = core.guarded(lambda: dense.sgpr_objective(torch, gpytorch, model, lik, X, y))
+        # training objective * N against the collapsed bound assembled from TLC's exact pieces (tr = sum_p gap_p / noise_p)
+        bound = -0.5 * (float(frac(exp["quad"])) + math.log(float(frac(exp["det"]))) + n * math.log(2 * math.pi)) - float(frac(exp["tr"])) / 2
+        ok, got = core.guarded(lambda: dense.sgpr_objective(torch, gpytorch, model, lik, X, y, params))
         if not ok:
-            return dense.fail(res, "C09/exact/sgpr/objective/raises", "%s: %s" % (desc, got))
+            return dense.fail(res, "C09/exact/sgpr/%s/objective/raises" % nk, "%s: %s" % (desc, got))
         if abs(got - bound) > 1e-8 * max(1.0, abs(bound)):
-            dense.fail(res, "C09/exact/sgpr/objective", "%s: N * mll = %.12g, collapsed bound from the exact pieces (quad %s, det %s, trace %s) = %.12g" % (
+            dense.fail(res, "C09/exact/sgpr/%s/objective" % nk, "%s: N * mll = %.12g, collapsed bound from the exact pieces (quad %s, det %s, trace term sum_p gap_p / noise_p = %s) = %.12g" % (
                 desc, got, frac(exp["quad"]), frac(exp["det"]), frac(exp["tr"]), bound))
     model.eval()
     lik.eval()
@@ -511,17 +528,32 @@ def float_cases(thorough, seed, rnd):
                                     fpv=fpv, scale=scale, fps=fps, toeplitz=toep, noise=0.2 if solve == "chol" else 0.4, mean=0.3, fantasy=fantasy)
                     for corr in (0, 1):
                         for d in (1, 2):
-                            add(st, fam="sgpr", d=d, n=12, ns=4, nz=4, solve=solve, fpv=fpv, scale=scale, fps=fps, corr=corr, noise=0.2, mean=0.3)
+                            for nk in dense.NOISE_KINDS:      # the SGPR predictive equations under every noise model of the Gaussian family
+                                if not thorough and nk != "homo" and (corr + d + fpv + scale + (solve == "cg")) % 2 == 1:
+                                    continue
+                                add(st, fam="sgpr", d=d, n=12, ns=4, nz=4, solve=solve, fpv=fpv, scale=scale, fps=fps, corr=corr, noise=0.2, mean=0.3, nk=nk)
                     for nsmp in (3, 10):
                         add(st, fam="rff", d=2, n=12 if solve == "chol" else 8, ns=4, num_samples=nsmp, solve=solve, fpv=fpv, scale=scale, fps=fps,
                             noise=0.2 if solve == "chol" else 0.4, mean=0.3)
-    # (4) objective
+    # (4) objective: every noise model of the Gaussian likelihood family (Structured.tla NoiseKinds, their batched forms, the Dirichlet
+    # classification likelihood) and the multitask branch
     for rep in range(6 if thorough else 1):
         for solve in ("chol", "cg"):
             for d in (1, 2):
                 for nz in (2, 5):
                     for base in ("rbf", "matern25"):
-                        add(ob, n=10, d=d, nz=nz, base=base, solve=solve, noise=0.15 + 0.1 * rep, mean=0.2 * rep - 0.3)
+                        for nk in dense.OBJECTIVE_KINDS:
+                            if nk == "mtask" or (solve == "cg" and nk not in dense.NOISE_KINDS):
+                                continue
+                            if not thorough and nk not in dense.NOISE_KINDS and (d + (nz == 5) + (base == "rbf")) % 2 == 1:
+                                continue
+                            add(ob, n=10, d=d, nz=nz, base=base, solve=solve, nk=nk, noise=0.15 + 0.1 * rep, mean=0.2 * rep - 0.3)
+        for t, ranks in ((2, (0, 1, 2)), (3, (1,) if not thorough else (0, 1, 3))):
+            for rank in ranks:
+                for mn in dense.MTASK_NOISES:
+                    for bunit in (1, 0):
+                        add(ob, n=6, d=1 + (rank + t) % 2, nz=3, base="rbf" if (rank + bunit) % 2 else "matern25", solve="chol", nk="mtask", t=t, rank=rank, mnoise=mn[0],
+                            bunit=bunit, noise=0.15 + 0.1 * rep, mean=0.0)
     # (5) refinement table
     for d, sizes in ((1, [10, 20, 40]), (2, [8, 16, 32])):
         for base in ("rbf", "matern25"):
@@ -529,12 +561,29 @@ def float_cases(thorough, seed, rnd):
     return dn, st, ob, rf
 
 
+def gsm_mode0(hist, final_mode):
+    """the mode a gridsm history started in (the spec's Init choice), recovered from the history: switches flip it"""
+    flips = sum(1 for st in hist if st["a"] == "switch")
+    other = "train" if final_mode == "eval" else "eval"
+    return final_mode if flips % 2 == 0 else other
+
+
 def chunks(lst, k):
     return [dict(cases=lst[i:i + k]) for i in range(0, len(lst), k)]
 
 
+def _tick(label, _t=[None]):
+    import sys
+    import time
+    now = time.time()
+    if os.environ.get("VERIF_C09_TIMING") and _t[0] is not None:
+        sys.stderr.write("[c09 timing] %-28s %.1fs\n" % (label, now - _t[0]))
+    _t[0] = now
+
+
 def run(ck):
     thorough = ck.tier == "thorough"
+    _tick("start")
     core.setup_torch()
     rnd = random.Random(ck.seed)
     order, skikron = detect_order(), detect_skikron()
@@ -546,12 +595,17 @@ def run(ck):
                      dict(grid=[5, 7], node=[1, 3]))
         ck.case(["interp-flattening"], True)
         return
-    ck.rule = ("exact cases = every state of Structured.tla parts kron / index / grid (whole small domains) and sgpr (rational instances) and every lattice target "
+    ck.rule = ("exact cases = every state of Structured.tla parts kron / index / grid (whole small domains) and sgpr (rational instances, each under every noise model "
+               "of the Gaussian likelihood family: homoskedastic, fixed per-point, fixed per-point + learned, input-dependent) and every lattice target "
                "of Interp.tla (step 1/4 over 1-D and 2-D integer grids), each replayed into the real kernel / interpolate() / SGPR model against TLC's exact "
-               "matrix, indices, weights, posterior and bound pieces; seeded float grids / targets for interpolate() (sum, nodes, quadratics); float cells = seeded "
-               "instances of every structured kernel against its dense formula and "
-               "of every kernel-specific prediction strategy x settings cell against the default strategy on the same approximate matrix; "
-               "non-trivial = more than one point and task / a target that is not a grid node / a multi-dimensional grid / any float cell")
+               "matrix, indices, weights, posterior and bound pieces; grid histories = every behaviour of Structured.tla part gridsm (evaluate / update_grid / "
+               "load_state_dict / re-laying of a data-dependent grid / train-eval switches, up to the stated depth) that ends with an evaluation, replayed into a real "
+               "GridInterpolationKernel / GridKernel and compared at the last step with W K_UU W^T of the CURRENT grid and with a fresh kernel on that grid; "
+               "seeded float grids / targets for interpolate() (sum, nodes, quadratics); float cells = seeded "
+               "instances of every structured kernel against its dense formula, "
+               "of every kernel-specific prediction strategy x settings cell (SGPR also x noise model) against the default strategy on the same approximate matrix, and of the SGPR "
+               "objective x noise model (also batched, Dirichlet classification, multitask) against the collapsed bound; "
+               "non-trivial = more than one point and task / a target that is not a grid node / a multi-dimensional grid / a history in which the grid moved / any float cell")
     ck.assumptions = [
         "SGPR dense meaning (read from SGPRPredictionStrategy and Titsias 2009): the predictive distribution is the Gaussian conditional of the joint prior with "
         "training block Qxx (+ diag(Kxx - Qxx) when sgpr_diagonal_correction is on) + noise, cross block Q*x and test block the BASE kernel K** "
@@ -568,6 +622,16 @@ def run(ck):
         "covariance is a difference of prior-sized terms); iterative cells (max_cholesky_size(0), eval_cg_tolerance 1e-12) %.0e, their WISKI fantasy updates %.0e: "
         "linear_operator's linear_cg stops updating a column at residual 1e-10 and guards divisions with eps = 1e-10, calibration on the unchanged tree gave "
         "up to 7e-5 (2e-4 with fantasy updates); instances with cond(K + noise) > 1e4 are skipped" % (dense.CG_RTOL, dense.CG_FANTASY_RTOL),
+        "collapsed bound for a Gaussian likelihood with diagonal noise covariance N (Titsias 2009 with sigma^2 I replaced by N; Structured.tla proves on the rational "
+        "instances that it is the ELBO at the optimal q(u)): log N(y; m, Qxx + N) - tr(N^-1 (Kxx - Qxx)) / 2, N = the diagonal the likelihood adds at the training inputs "
+        "(FixedNoise: the given variances, + the learned variance with learn_additional_noise; HeteroskedasticNoise: the noise model's mean at the inputs, passed as mll "
+        "params); for MultitaskKernel(InducingPointKernel) under MultitaskGaussianLikelihood the inducing variables are all tasks at the inducing inputs: "
+        "log N(vec Y; vec M, Qxx (x) B + I (x) S) - tr(Kxx - Qxx) tr(S^-1 B) / 2 with B the task covariance and S the task noise covariance",
+        "grid histories: the kernel's hyperparameters do not change inside a history (parameter changes in eval mode without train() are the cache protocol of C03); "
+        "a data-dependent grid (grid_bounds=None) is only moved by the kernel itself: update_grid / load_state_dict on such a kernel leave the Python attribute "
+        "grid_bounds stale and are not part of the machine; evaluations covered by the current grid use data 2% inside the range the grid was fitted to (the code "
+        "compares against bounds recomputed in floating point); the three data ranges / grids have pairwise different spacings (a shifted grid with the same "
+        "spacing has the same K_UU for a stationary kernel); d and use_toeplitz are assigned round-robin to the histories (thorough: all four combinations for depth < 4)",
         "'converges to the base kernel as the grid is refined' is NOT decided: only a monotone error table on three grid sizes",
         "the code-shaped model follows the code's flattening of multi-indices in interpolate() (detected: %s) and its Kronecker order of K_uu in interpolation mode (detected: %s); verdicts come from the property-level clauses only" % (order, skikron)]
     wd = os.path.join(tlc.BUILD, PID)
@@ -586,18 +650,50 @@ def run(ck):
     job(write_structured(wd, "index", "index", maxn=3, maxt=3), "index")
     job(write_structured(wd, "grid", "grid", grid_sizes=gs_all), "grid", workers=4)
     job(write_structured(wd, "ski", "ski", grid_sizes=gs_all, order=order, skikron=skikron), "ski")
-    sg = gen_sgpr(rnd, 1000 if thorough else 100)
-    for b in range(0, len(sg), 500):
-        job(write_structured(wd, "sgpr%d" % b, "sgpr", instances=sg[b:b + 500]), "sgpr%d" % b, workers=2)
+    sg = gen_sgpr(rnd, 2000 if thorough else 160)
+    sgpr_batches = {}
+    sb = 250 if thorough else 80
+    for b in range(0, len(sg), sb):
+        sgpr_batches["sgpr%d" % b] = sg[b:b + sb]
+        job(write_structured(wd, "sgpr%d" % b, "sgpr", instances=sg[b:b + sb]), "sgpr%d" % b, workers=2)
+    gsm_depth = 5 if thorough else 4
+    for kind in GSM_KINDS:
+        job(write_structured(wd, "gridsm_" + kind, "gridsm", gsm_kind=kind, gsm_depth=gsm_depth), "gridsm_" + kind, workers=2)
+        if thorough:
+            job(write_structured(wd, "gridsm_wide_" + kind, "gridsm", gsm_kind=kind, gsm_depth=4, gsm_wide=True), "gridsm_wide_" + kind, workers=2)
+    for kind in ("fixed", "dyn"):       # the invariant is not vacuous: a kernel whose update_grid keeps K_UU must violate it
+        job(write_structured(wd, "gridsm_stale_" + kind, "gridsm", gsm_kind=kind, gsm_depth=3, gsm_clear="noninterp"), "gridsm_stale_" + kind, workers=1)
     job(write_structured(wd, "rff", "rff", instances=gen_rff(rnd, 600 if thorough else 80)), "rff")
     one, two = interp_grids(thorough)
     job(write_interp(wd, "1d", one, order), "interp1d")
     for b in range(0, len(two), 2):
         job(write_interp(wd, "2d_%d" % b, two[b:b + 2], order), "interp2d_%d" % b)
-    rs = dict(zip(labels, tlc.run_many(jobs, parallel=8)))
+    par = max(2, min(8, core.NPROC // 2))
+    _tick("setup")
+    rs = dict(zip(labels, tlc.run_many(jobs, parallel=par)))
+    _tick("tlc")
+    # TLC integers are 32 bit: a rational instance whose intermediate products overflow stops the whole run; such a batch is re-run in
+    # quarters and the quarters that overflow again are left out (counted below)
+    dropped = 0
+    for lab in [l for l in list(rs) if l in sgpr_batches and rs[l].rc != 0 and not rs[l].violation and "Overflow" in rs[l].stdout]:
+        insts = sgpr_batches[lab]
+        q = max(1, (len(insts) + 3) // 4)
+        sub = [(write_structured(wd, "%s_q%d" % (lab, k), "sgpr", instances=insts[k * q:(k + 1) * q]),
+                dict(name=PID + "/%s_q%d" % (lab, k), dump=True, check=False, workers=2, timeout=900, coverage=False)) for k in range(4) if insts[k * q:(k + 1) * q]]
+        del rs[lab]
+        for k, r in enumerate(tlc.run_many(sub, parallel=par)):
+            if r.rc != 0 and not r.violation and "Overflow" in r.stdout:
+                dropped += len(insts[k * q:(k + 1) * q])
+            else:
+                rs["%s_q%d" % (lab, k)] = r
+    ck.extra["sgpr_instances_left_out_int32_overflow"] = dropped
     predicted = {}
     for lab, r in rs.items():
         ck.add_tlc(r, ("Interp " if lab.startswith("interp") else "Structured ") + lab)
+        if lab.startswith("gridsm_stale_"):
+            if not (r.violation and r.violation["name"] == "GsmOK"):
+                ck.vacuous("GsmOK holds for a grid kernel whose update_grid keeps the cached K_UU (%s): the invariant does not see stale caches" % lab)
+            continue
         if r.violation:
             predicted[lab] = r.violation["name"]
             import re
@@ -613,8 +709,22 @@ def run(ck):
     ck.extra["tlc_predictions"] = predicted
     # ---------------- exact replays ----------------
     l1 = []
+    gsm = []
     for lab, r in rs.items():
         part = "sgpr" if lab.startswith("sgpr") else lab
+        if lab.startswith("gridsm_") and not lab.startswith("gridsm_stale_") and lab not in predicted:
+            kind = lab.split("_")[-1]
+            sts = [s for s in r.states() if len(s["out"]) and s["out"][-1]["a"] == "eval"]        # every history that ends with an evaluation
+            sts.sort(key=lambda s: repr(s["out"]))
+            for i, s in enumerate(sts):
+                hist = _plain(s["out"])
+                for combo in (range(4) if (thorough and len(hist) < 4) else [i % 4]):
+                    gsm.append(dict(kind=kind, d=1 + combo % 2, toep=combo // 2, mode0=gsm_mode0(hist, s["c"]["mode"]), hist=hist, seed=ck.seed * 100003 + len(gsm)))
+            if not any(st.get("refit") for s in sts for st in s["out"][1:]) and kind == "dyn":
+                ck.vacuous("no gridsm history in which the data-dependent grid is re-laid after the first call")
+            if kind != "dyn" and not any(st["a"] in ("update", "load") for s in sts for st in s["out"]):
+                ck.vacuous("no gridsm history with update_grid / load_state_dict (%s)" % kind)
+            continue
         if part not in ("kron", "index", "grid", "sgpr") or lab in predicted:
             continue
         for s in r.states():
@@ -634,6 +744,7 @@ def run(ck):
     if not interp_items or not any(p["interior"] and not p["node"] for i in interp_items for p in i["points"]):
         ck.vacuous("no interior lattice target was generated")
     rnd.shuffle(l1)
+    _tick("parse dumps")
     results = core.pmap(l1_worker, chunks(l1, 40) + [dict(cases=[i]) for i in interp_items], chunksize=1)
     ck.absorb(results)
     fl = [dict(sizes=sz, n=60, seed=ck.seed * 1000 + i, order=order)
@@ -643,12 +754,20 @@ def run(ck):
     if not sum(r.get("interior", 0) for r in rfl):
         ck.vacuous("no interior float target for the quadratic reproduction")
     ck.section("interpolation_float", grids=len(fl), targets=sum(r.get("n", 0) for r in rfl), interior_targets=sum(r.get("interior", 0) for r in rfl))
+    rnd.shuffle(gsm)
+    _tick("exact + interp replays")
+    rg = core.pmap(dense.gridsm_worker, chunks(gsm, 25), chunksize=1)
+    ck.absorb(rg)
+    _tick("gridsm replays")
+    ck.section("grid_histories", histories=len(gsm), depth=gsm_depth, **{k: sum(1 for c in gsm if c["kind"] == k) for k in GSM_KINDS})
     ck.section("exact", kron=sum(1 for c in l1 if c["part"] == "kron"), index=sum(1 for c in l1 if c["part"] == "index"), grid=sum(1 for c in l1 if c["part"] == "grid"),
                sgpr=sum(1 for c in l1 if c["part"] == "sgpr"), interpolation_lattice_targets=n_lattice, interpolation_grids=len(interp_items))
     ck.exhaustive = False          # the numeric dimension is sampled; the discrete domains below are covered completely
     ck.extra["domains_covered_completely"] = dict(kron="n, m <= 3 points, t <= 3 tasks, rank 0..t, 1..2 LCM terms", index="every task-index vector of length <= 3 x <= 2, t <= 3, rank 0..t",
                          grid="every grid shape with 1..3 dimensions of 2..4 points (3-D quick: 2..3), use_toeplitz on/off",
-                         interp="every target of the step-1/4 lattice over %d 1-D and %d 2-D integer grids" % (len(one), len(two)))
+                         interp="every target of the step-1/4 lattice over %d 1-D and %d 2-D integer grids" % (len(one), len(two)),
+                         gridsm="every history of length <= %d over {evaluate (x1 is x2 / x1 != x2; three data ranges: first, covering, disjoint), update_grid(2 grids), "
+                                "load_state_dict, train(), eval()} from both initial modes, for GridInterpolationKernel with and without grid_bounds and GridKernel" % gsm_depth)
     # ---------------- float cells ----------------
     dn, st, ob, rf = float_cases(thorough, ck.seed, rnd)
     for lst in (dn, st, ob):
@@ -661,6 +780,7 @@ def run(ck):
     ck.absorb(r4)
     r5 = core.pmap(dense.refine_worker, chunks(rf, 1), chunksize=1)
     ck.absorb(r5)
+    _tick("float cells")
     worst = {}
     for r in r3:
         for what, e in (r.get("errs") or {}).items():
@@ -705,6 +825,8 @@ def replay(rep):
         res = dense.objective_worker(dict(cases=[case]))
     elif sec == "refine":
         res = dense.refine_worker(dict(cases=[case]))
+    elif sec == "gridsm":
+        res = dense.gridsm_worker(dict(cases=[case]))
     else:
         raise core.Machinery("unknown replay section %r" % sec)
     bad = [r for r in res if not r.get("ok", True) or r.get("machinery")]
